@@ -817,8 +817,11 @@ class WCS(object):
 
     def GetPole(self):
 
-        longitude_0 = self.wcs["crval1"] * d2r
-        latitude_0 = self.wcs["crval2"] * d2r
+        # float(): header values may be numpy scalars of lower precision
+        # (e.g. float32 fields of a record array); a product with a
+        # python float would stay in that precision
+        longitude_0 = float(self.wcs["crval1"]) * d2r
+        latitude_0 = float(self.wcs["crval2"]) * d2r
 
         if self.theta0 == 90.0:
             return longitude_0, latitude_0
@@ -958,17 +961,17 @@ class WCS(object):
         if "longpole" not in self.wcs:
             self.longpole = longpole
         else:
-            self.longpole = self.wcs["longpole"]
+            self.longpole = float(self.wcs["longpole"])
 
         if "latpole" not in self.wcs:
             self.latpole = latpole
         else:
-            self.latpole = self.wcs["latpole"]
+            self.latpole = float(self.wcs["latpole"])
 
         if "theta0" not in self.wcs:
             self.theta0 = theta0
         else:
-            self.theta0 = self.wcs["theta0"]
+            self.theta0 = float(self.wcs["theta0"])
 
     def ExtractUnits(self, wcs):
 
